@@ -184,6 +184,12 @@ def finish(ctx: Ctx, level_text: str, trusted: list[str], assumptions: list[str]
         (ed / f"{ctx.pid}.json").write_text(json.dumps(ev, indent=1, default=str))
 
     nfun = len(ctx.analysed_funcs)
+    sv = ctx.extra.get("self_validation")
+    if sv:
+        print(f"self-validation: mutants reported {sv['mutants_reported']}, missed {sv['mutants_missed']}, twins silent {sv['twins_silent']}, skipped {sv['skipped']}", file=out)
+        for c in sv["cases"]:
+            if c["outcome"] == "skipped":
+                print(f"  skipped {c['case']}: {c['why']}", file=out)
     print(
         f"{ctx.pid} [{ctx.tier}] rules={len(ctx.rules)} obligations={len(ctx.obligations)} "
         f"discharged={sum(1 for o in ctx.obligations if o.ok)} known={len(seen_keys)} new={len({o.key for o in new})} "
